@@ -408,12 +408,38 @@ def _clip_form():
         return (f"/-- SKIPPED ({e}) -/\ndef {name} : C16E.ClipForm := C16E.clipForm\n"), {name: f"skipped: {e}"}
 
 
+def _zero_forms():
+    """argument form of every `zero_grad` call of the loop body (incl. the OOM handler), in source order"""
+    name = "zeroGradForms"
+    try:
+        fn = find_function(parse_file(REPO / E), "Engine.training_loop")
+        loop = _main_loop(fn)
+        calls = sorted((c for c in ast.walk(loop) if isinstance(c, ast.Call) and isinstance(c.func, ast.Attribute)
+                        and c.func.attr == "zero_grad"), key=lambda n: (n.lineno, n.col_offset))
+        forms = []
+        for c in calls:
+            vals = list(c.args) + [k.value for k in c.keywords if k.arg == "set_to_none"]
+            if any(k.arg not in ("set_to_none",) for k in c.keywords) or len(vals) > 1:
+                raise Untranslatable(f"zero_grad call `{ast.unparse(c)}`")
+            if not vals:
+                forms.append(".toNone")
+            elif isinstance(vals[0], ast.Constant) and vals[0].value in (True, False):
+                forms.append(".toNone" if vals[0].value else ".toZero")
+            else:
+                raise Untranslatable(f"zero_grad argument `{ast.unparse(vals[0])}`")
+        return (f"/-- translated from `{E}`:`Engine.training_loop`: the argument form of every zero_grad call -/\n"
+                f"def {name} : List C16E.ZeroForm := [{', '.join(forms)}]\n"), {name: "translated"}
+    except Untranslatable as e:
+        return (f"/-- SKIPPED ({e}) -/\ndef {name} : List C16E.ZeroForm := C16E.zeroGradForms\n"), {name: f"skipped: {e}"}
+
+
 def events_extra():
     t1, s1 = _between_table()
     t2, s2 = _loop_calls()
     t3, s3 = _amp_table()
     t4, s4 = _clip_form()
-    return t1 + "\n" + t2 + "\n" + t3 + "\n" + t4, {**s1, **s2, **s3, **s4}
+    t5, s5 = _zero_forms()
+    return t1 + "\n" + t2 + "\n" + t3 + "\n" + t4 + "\n" + t5, {**s1, **s2, **s3, **s4, **s5}
 
 
 # --------------------------------------------------------------------------------------------------
